@@ -285,6 +285,7 @@ class Exec:
         self.pruned = 0
         self.return_paths = []  # (hyps) of paths that reached a normal return, for cover checks
         self.local_defs = {n.name: n for n in ast.walk(fnode) if isinstance(n, ast.FunctionDef) and n is not fnode}
+        self.covered = set()  # ids of the statements executed on some path (reachability report)
 
     # ---- decisions -----------------------------------------------------------
     def decide(self, cond):
@@ -471,6 +472,7 @@ class Exec:
         if m is None:
             raise Unsupported(f"statement {type(s).__name__} at {self.qualname}:{s.lineno}")
         self.cur_line = s.lineno
+        self.covered.add(id(s))
         m(s)
 
     def st_Pass(self, s):
